@@ -380,7 +380,7 @@ pub fn run(args: &Args) {
         let l: Vec<&str> = labels.iter().map(|s| s.as_str()).collect();
         let key = (c.literal.as_str(), c.file.as_str(), c.module.as_str(), c.artifact_directory.as_deref());
         report.case(if st.skipped.is_none() && (!canonical || !at_root) { Some(&key) } else { None }, &l);
-        report.sample(if st.entrypoint { "entrypoint" } else { "field-or-pointer" }, 2, || to_json(c));
+        crate::sample(&report, if st.entrypoint { "entrypoint" } else { "field-or-pointer" }, 2, || to_json(c));
         Ok(())
     };
     let below_known = report.is_known("entrypoint:specifier-not-relative");
